@@ -168,7 +168,7 @@ def run(ctx):
     except TC.Refuse as e:
         ctx.obligation("translate_cfg", False, f"translator refused: {e}")
         tr_ok = False
-    ok, out = ctx.build(["proofs/CfgTrees.vo", "proofs/CfgChart.vo", "proofs/CkyProofs.vo", "proofs/TrimProofs.vo", "proofs/NormProofs.vo", "proofs/GenCfgBridge.vo", "proofs/UnfoldTreeProofs.vo", "proofs/BinTreeProofs.vo", "proofs/NullUnaryProofs.vo", "proofs/TopDownTrimProofs.vo", "proofs/ReachProofs.vo"]) if tr_ok else (False, "translator refused")
+    ok, out = ctx.build(["proofs/CfgTrees.vo", "proofs/CfgChart.vo", "proofs/CkyProofs.vo", "proofs/TrimProofs.vo", "proofs/NormProofs.vo", "proofs/GenCfgBridge.vo", "proofs/UnfoldTreeProofs.vo", "proofs/BinTreeProofs.vo", "proofs/NullUnaryProofs.vo", "proofs/TopDownTrimProofs.vo", "proofs/ReachProofs.vo", "proofs/UnaryCycleProofs.vo"]) if tr_ok else (False, "translator refused")
     if ok:
         ctx.prove("props/C06.v")
     else:
